@@ -186,6 +186,8 @@ func H18b1_twin() {
 // characters (sub-delims, ':', '@', '~' - drawn concretely: a symbolic special byte makes percentEncodeString
 // index its hex table symbolically and every later query ~100x slower), or a symbolic byte that is not special
 // and satisfies `other`. A second segment, if any, is the literal "x".
+var hURLConcrete string
+
 func hURLString(other func(c byte) bool) string {
 	s := "https://a" + hIDChars(vLen(0, vParam("host", 1)))
 	if vBool() {
@@ -209,6 +211,12 @@ func hURLString(other func(c byte) bool) string {
 				k := vChoice(nsp)
 				seg += hSpecials[k : k+1]
 				vCover("special-byte")
+			} else if hURLConcrete != "" {
+				// representatives drawn concretely (bytes that net/url percent-escapes: a symbolic byte as index
+				// into the hex digit tables makes every later query ~100x slower)
+				vTag("segbyte")
+				k := vChoice(len(hURLConcrete))
+				seg += hURLConcrete[k : k+1]
 			} else {
 				vTag("segbyte")
 				c := vString(1)
@@ -267,7 +275,10 @@ func H18b2_twin() {
 // url.URL.JoinPath on an API parameter): URLToDID either refuses the URL, or yields a DID that converts back
 // to the same host and path.
 func H18b3() {
+	// the bytes besides those of H18b2 (which net/url leaves alone): representatives of everything net/url escapes
+	hURLConcrete = " \"<>[]^`{|}\\\x01\x7f\x80\xc5\x81\xe9\xff"
 	s := hURLString(func(c byte) bool { return c != '/' && c != '?' && c != '#' && c != '%' })
+	hURLConcrete = ""
 	u, err := url.Parse(s)
 	if err != nil {
 		vCover("url-refused-by-net/url")
@@ -306,31 +317,41 @@ func H18b3_twin() {
 	}
 }
 
-// hCodecString: every byte string without '%' of n bytes: each byte is one of the 14 special characters (drawn
-// concretely, see hURLString) or a symbolic byte that is neither special nor '%'.
-func hCodecString(n int) (s string, special int, nonASCII bool) {
+// hCodecString: byte strings without '%' of n bytes: each byte is one of the 14 special characters (drawn
+// concretely, see hURLString), a non-ASCII byte (four representatives, drawn concretely: a symbolic byte as index
+// into the hex digit table makes every later query 50-100x slower) or a symbolic ASCII byte that is neither
+// special nor '%'.
+var hNonASCII = "\x80\xc5\xe9\xff"
+
+func hCodecString(n int) (s string, special int, nonASCII int) {
 	for i := 0; i < n; i++ {
-		if vBool() {
+		switch vChoice(3) {
+		case 0:
 			k := vChoice(len(hSpecials))
 			s += hSpecials[k : k+1]
 			special++
-		} else {
+		case 1:
+			k := vChoice(len(hNonASCII))
+			s += hNonASCII[k : k+1]
+			nonASCII++
+		default:
 			vTag("s")
 			c := vString(1)
-			vAssume(!hIsSpecial(c[0]) && c[0] != '%')
-			nonASCII = nonASCII || c[0] >= 0x80
+			vAssume(!hIsSpecial(c[0]) && c[0] != '%' && c[0] < 0x80)
 			s += c
 		}
 	}
 	return
 }
 
-// H18b4: the percent codec. For every byte string without '%': decoding the encoding gives the string back,
-// and the encoding is free of special characters and has the length the byte count implies.
+// H18b4: the percent codec. For every such byte string: the encoding is in the alphabet of a DID (no special
+// character, no non-ASCII byte), has the length the byte count implies (3 bytes per special or non-ASCII byte),
+// full percent-decoding (what DIDToURL applies to the host and url.Parse to the path) gives the string back, and
+// for ASCII strings percentDecodeString does too.
 func H18b4() {
 	n := vLen(0, vParam("codec", 2))
 	s, special, nonASCII := hCodecString(n)
-	if nonASCII {
+	if nonASCII > 0 {
 		vClass("non-ASCII input")
 		vCover("non-ascii")
 	} else {
@@ -341,13 +362,17 @@ func H18b4() {
 		vCover("special")
 	}
 	e := percentEncodeString(s)
-	vAssert(len(e) == n+2*special, "H18b4.encoded_length: encoded length is not len(s) + 2 per special byte")
+	vAssert(len(e) == n+2*(special+nonASCII), "H18b4.encoded_length: encoded length is not len(s) + 2 per special or non-ASCII byte")
 	clean := true
 	for i := 0; i < len(e); i++ {
-		clean = clean && !hIsSpecial(e[i])
+		clean = clean && !hIsSpecial(e[i]) && e[i] < 0x80
 	}
-	vAssert(clean, "H18b4.encoded_alphabet: encoding still contains a special character")
-	vAssert(percentDecodeString(e) == s, "H18b4.decode_inverts_encode: percentDecodeString(percentEncodeString(s)) != s")
+	vAssert(clean, "H18b4.encoded_alphabet: encoding still contains a special character or a non-ASCII byte")
+	full, err := url.PathUnescape(e)
+	vAssert(err == nil && full == s, "H18b4.unescape_inverts_encode: url.PathUnescape(percentEncodeString(s)) != s")
+	if nonASCII == 0 {
+		vAssert(percentDecodeString(e) == s, "H18b4.decode_inverts_encode: percentDecodeString(percentEncodeString(s)) != s")
+	}
 }
 
 func H18b4_twin() {
